@@ -57,7 +57,7 @@ def enumerate_states(tier, seed):
             d.update({n: 0 for n in gs.COORDS})
             d["pl"] = pl
             states.append(d)
-    prim = ps.enumerate_states(list(ps.FUNCS))
+    prim = ps.enumerate_states(list(ps.FUNCS), shifts=False)
     for d in prim:
         d["k"] = "prim"
     states += prim
